@@ -3,6 +3,8 @@ def compress_settings(settings):
     scenario_managers = dict[str, dict[str, dict[str, dict[str, [float]]]]]()
         
     for step in settings.keys():
+        if not settings[step]:
+            continue # a step taken without settings (no request body) logs None
         # loop over all scenario managers in the step
         for scenario_manager_name in settings[step]:
             scenario_manager = settings[step][scenario_manager_name]
